@@ -48,7 +48,7 @@ def run(ck):
                                                           "rhs": [{"k": "t", "n": "UNDEF", "s": False, "c": []}]}]}]
     vp.write_ndjson(os.path.join(ck.work, "tla", "full.ndjson"), full + bad)
     vp.write_ndjson(os.path.join(ck.work, "tla", "rest.ndjson"), rest)
-    ck.run_sharded("layout-sweep", "tla/full.ndjson", "tla/layouts_full.ndjson", extra=["-step", "1" if not quick else "1", "-traces", "tla/rt_full.ndjson"], timeout=2400)
+    ck.run_sharded("layout-sweep", "tla/full.ndjson", "tla/layouts_full.ndjson", extra=["-step", "1" if not quick else "5", "-traces", "tla/rt_full.ndjson"], timeout=2400)
     ck.run_sharded("layout-sweep", "tla/rest.ndjson", "tla/layouts_rest.ndjson", extra=["-step", "512"], timeout=1200)
     # run_sharded concatenates only the main output: collect the trace shards
     traces = []
